@@ -108,3 +108,15 @@ package influxdb
 //@ func (*Client).processMetrics
 //@   requires idb != nil && metrics != nil && cb != nil && idb.metricsPerBatch >= 1
 //@   modifies everything
+
+// C16: SendMetricsAsync starts exactly one collecting goroutine and leaves the callback to it; the collector calls
+// it exactly once, after it has gathered the results or the context is done.
+//@ func (*Client).SendMetricsAsync
+//@   requires idb != nil && cb != nil && metrics != nil && idb.metricsPerBatch >= 1
+//@   ensures  calls(cb) == 0 && calls(go1) == 1
+//@   modifies everything
+//@ func (*Client).SendMetricsAsync$2
+//@   requires cb != nil
+//@   loop 1 invariant calls(cb) == 0 && cb != nil
+//@   ensures  calls(cb) == 1
+//@   modifies everything
